@@ -213,15 +213,57 @@ def patch_lens(script_lines, impl_lines):
     return out, impl_clean
 
 
-def run_model(script_lines, dbg, outp):
-    inp = "\n".join(script_lines) + "\n"
-    p = subprocess.run([DRIVER] + (["dbg=1"] if dbg else []), input=inp.encode(), stdout=subprocess.PIPE, stderr=subprocess.PIPE)
-    out = p.stdout.decode("utf-8", "replace").split("\n")
-    if out and out[-1] == "":
-        out.pop()
+def run_model(script_lines, dbg, outp, jobs=12):
+    """run the Lean driver; cases are independent, so the script is split at `case` lines
+    into chunks that run in parallel"""
+    starts = [i for i, l in enumerate(script_lines) if l.startswith("case ")]
+    if not starts or starts[0] != 0:
+        starts = [0] + starts
+    # balance chunks by character count
+    total = sum(len(l) + 1 for l in script_lines)
+    target = max(1, total // jobs)
+    bounds = [0]
+    acc = 0
+    for a, b in zip(starts, starts[1:] + [len(script_lines)]):
+        acc += sum(len(l) + 1 for l in script_lines[a:b])
+        if acc >= target and b < len(script_lines):
+            bounds.append(b)
+            acc = 0
+    bounds.append(len(script_lines))
+    procs = []
+    for a, b in zip(bounds, bounds[1:]):
+        if a == b:
+            continue
+        inp = ("\n".join(script_lines[a:b]) + "\n").encode()
+        pr = subprocess.Popen([DRIVER] + (["dbg=1"] if dbg else []), stdin=subprocess.PIPE, stdout=subprocess.PIPE, stderr=subprocess.PIPE)
+        procs.append((pr, inp))
+    import threading
+    results = [None] * len(procs)
+
+    def work(k):
+        pr, inp = procs[k]
+        o, e = pr.communicate(inp)
+        results[k] = (pr.returncode, o, e)
+
+    ths = [threading.Thread(target=work, args=(k,)) for k in range(len(procs))]
+    for t in ths:
+        t.start()
+    for t in ths:
+        t.join()
+    out = []
+    rc = 0
+    err = ""
+    for r in results:
+        rc = rc or r[0]
+        chunk = r[1].decode("utf-8", "replace").split("\n")
+        if chunk and chunk[-1] == "":
+            chunk.pop()
+        out += chunk
+        if r[0] != 0:
+            err = r[2].decode("utf-8", "replace")[-500:]
     with open(outp, "w") as f:
         f.write("\n".join(out) + "\n")
-    return p.returncode, out, p.stderr.decode("utf-8", "replace")[-500:]
+    return rc, out, err
 
 
 # ------------------------------------------------------------------------------- comparing
